@@ -54,6 +54,15 @@ func expectation(c *tcase) int {
 	within := len(c.O) <= maxBlob
 	if !isErrMode(c.Mode) {
 		switch {
+		case c.matchFull && within && encryptCannotHold(c):
+			// Documented limitation, not a C02 violation (the property says
+			// "accepted only if"): the encrypt store keeps each blob as one age
+			// ciphertext blob (plaintext + ~4.3 KiB) in its backing store, which
+			// has the same 16 MiB cap, so plaintext within a few KiB of the cap
+			// cannot be held. Either verdict; a rejection must be loud and
+			// traceless, an acceptance must be readable back (F2 was the
+			// silent variant: acknowledged but unfetchable).
+			return either
 		case c.matchFull && within:
 			return mustAccept
 		case c.matchFull && c.Path == "direct":
@@ -88,6 +97,20 @@ func expectation(c *tcase) int {
 		return either
 	}
 	return mustReject
+}
+
+// encryptOverheadMax bounds the ciphertext overhead of the encrypt store
+// (1 version byte + age header + 16 bytes per 64 KiB chunk = 4281 bytes at 16 MiB).
+const encryptOverheadMax = 8 << 10
+
+func encryptCannotHold(c *tcase) bool {
+	return kindOf(c.Backend) == "encrypt" && len(c.O)+encryptOverheadMax > maxBlob
+}
+
+// tooLarge: the rejection says that the blob size limit was exceeded
+// (blobserver's error for it is unexported; handlers say "blob too big").
+func tooLarge(err error) bool {
+	return err != nil && (strings.Contains(err.Error(), "over the limit") || strings.Contains(err.Error(), "too big") || strings.Contains(err.Error(), "too large"))
 }
 
 func refMatchesSmall(R blob.Ref, data []byte) bool {
@@ -247,14 +270,26 @@ func (g *genv) judge(c *tcase, exp int, out outcome, pre hs.Blob, preHas bool, l
 
 	// rejected
 	if exp == mustAccept {
-		return prob(false, "valid-rejected", "rejected (%s, err %v, errorText %q) although the bytes match the ref and are within the cap", out.class, out.err, out.errorText)
+		class, dirty := "valid-rejected", false
+		if p := g.verifyRef(c.R, preHas, pre.Data); p != nil || !sameInts(lens0, g.leafLens()) {
+			class, dirty = "valid-rejected-with-trace", true
+		}
+		return prob(dirty, class, "rejected (%s, err %v, errorText %q) although the bytes match the ref and are within the cap", out.class, out.err, out.errorText)
 	}
 	// ... the caller must have been told
 	if isMP(c.Path) && out.code == 200 && out.errorText == "" {
 		return prob(false, "rejected-silently", "ref not listed as received but the response carries no errorText")
 	}
-	if c.Path == "receive" && !isErrMode(c.Mode) && supported(c.R) && !errors.Is(out.err, blobserver.ErrCorruptBlob) {
-		return prob(false, "reject-not-ErrCorruptBlob", "rejected with %v, documented error is ErrCorruptBlob", out.err)
+	if c.Path == "receive" && !isErrMode(c.Mode) && supported(c.R) {
+		// rejection classes of the property: corrupt blob / too large (/ unsupported hash: any error).
+		// "too large" is only a fitting answer when something really exceeded the cap.
+		ok := errors.Is(out.err, blobserver.ErrCorruptBlob)
+		if len(c.O) > maxBlob || encryptCannotHold(c) {
+			ok = ok || tooLarge(out.err)
+		}
+		if !ok {
+			return prob(false, "reject-not-ErrCorruptBlob", "rejected with %v; documented error is ErrCorruptBlob (or a size-limit error for an oversize upload)", out.err)
+		}
 	}
 	// ... and no trace may remain: the ref looks exactly as before
 	if p := g.verifyRef(c.R, preHas, pre.Data); p != nil {
